@@ -152,6 +152,15 @@ def gen(rng: random.Random) -> Dict[str, Any]:
             v[0] = 1
     if rng.random() < 0.25 and all(g.get("cfw") for g in spec["groups"]):
         spec = api_variant(spec)
+        if rng.random() < 0.6:
+            # a second api data key, listed after the real one, repeating some of its column names with other values
+            # (e.g. an audit copy): the columns stay bound to the FIRST key providing them
+            rcols = spec["groups"][0]["cols"]
+            shared = [c for c in rcols if rng.random() < 0.7] or [next(iter(rcols))]
+            decoy = {c: [(-1000 - i) for i in range(len(rcols[c]))] for c in shared}
+            if rng.random() < 0.5:
+                decoy["zz_extra"] = [7] * len(next(iter(rcols.values())))
+            spec["api_decoys"] = [{"key": "K_decoy", "cols": decoy}]
     return spec
 
 
@@ -269,6 +278,7 @@ def run(rep: vlib.Reporter, tier: str, seed: int) -> None:
         dist[r["status"]] = dist.get(r["status"], 0) + 1
         dist["with_tfs"] += any(s["kind"] == "TFS" for s in r["plan"]["steps"])
         dist["api_roots"] += root["kind"] == "api"
+        dist["api_with_decoy_key"] = dist.get("api_with_decoy_key", 0) + bool(spec.get("api_decoys"))
         dist["with_nulls"] += any(v is None for c in root["cols"].values() for v in c)
         dist["option_groups"] = dist.get("option_groups", 0) + bool(root.get("cols_by_opt"))
         g = len(spec["groups"])
